@@ -51,8 +51,12 @@ class Origins:
     # ---------------------------------------------------------------- forward dataflow (reaching origins)
     def _solve(self) -> None:
         env: Dict[str, Set[str]] = {}
+        fresh_params = {a.arg for a in (self.fn.args.vararg, self.fn.args.kwarg) if a is not None}
         for p in self.params:
-            env[p] = {"SELF"} if p == self.self_name else {f"CALLER:{p}"}
+            if p in fresh_params:
+                env[p] = {FRESH}      # the call protocol builds a new tuple / dict for *args / **kwargs
+            else:
+                env[p] = {"SELF"} if p == self.self_name else {f"CALLER:{p}"}
         self.env_at: Dict[int, Dict[str, Set[str]]] = {}
         self._loops: List[List[Dict[str, Set[str]]]] = []
         self.cur: Dict[str, Set[str]] = env
